@@ -181,3 +181,262 @@ def c13_part(op_line, out_line, st):
     if isinstance(m, tuple) and m[1] == c13.KEY_RETURNED:
         return None
     return m
+
+
+# ------------------------------------------------------------------ exact iterate consistency (audit-2 #5)
+#
+# What a progress callback of PANOC / ZeroFPR / PANTR / FISTA claims — (x, γ) ↦ ∇ψ(x), x̂, p, ‖p‖², ψ(x), ψ(x̂),
+# ŷ(x̂), ∇ψ(x̂), φγ, ε — is recomputed from the PROBLEM DATA alone (polynomial test problem, exact rationals;
+# prox of box / box+ℓ1 in closed form: clamp(soft-threshold)), never from the library's intermediate values.
+#
+# Tolerances (all relative, stated):
+#   function values / gradients / multipliers:  |reported − exact| ≤ REL · M,  REL = 2⁻⁴⁰, M = the sum of the
+#       absolute values of all terms of the exact expression at the reported point (the running-error magnitude
+#       of any evaluation order; catches nothing but rounding — a double evaluation has error ≲ 50·2⁻⁵³·M)
+#   prox step:  x̂ and p against the exact prox at the reported (x, γ) with the exact ∇ψ(x):
+#       4 ulp of the operands (x, γ∇ψ, γλ, the bounds, x̂) + γ·REL·M(∇ψ_i)   (the prox is 1-Lipschitz)
+#   ‖p‖², φγ:  against the exact expression of the reported parts, 8(n+4)·2⁻⁵³ · Σ|terms|
+#   ε:  the ten DOCUMENTED criteria from x − x̂ (reported points), the exact ∇ψ(x), ∇ψ(x̂), ŷ(x̂), γ:
+#       REL·M(ε) + 4 ulp(max |x_i|, |x̂_i|)·(1/γ where the formula divides by γ)
+# Skipped (counted): a quantity whose magnitude M exceeds 1e300 (IEEE overflow of intermediate terms);
+# under NaN injection (`nanat` ≠ 0) a reported NaN value of ψ / ψ̂ / φγ / ε (the injected answer).
+
+REL = 2.0 ** -40
+from fractions import Fraction as Fr   # noqa: E402
+import math                            # noqa: E402
+
+
+class ExactQ:
+    """`solvers.Exact` plus the magnitudes the tolerances need and the closed-form prox."""
+
+    def __init__(self, op):
+        self.op = op
+        self.ex = S.Exact(op)
+        self.y = S.frv(op.vec('y0'))
+        self.Sig = S.frv(op.vec('Sig'))
+        ex = self.ex
+        l1 = ex.l1
+        self.lam = [Fr(0)] * ex.n if not l1 else ([Fr(l1[0])] * ex.n if len(l1) == 1 else S.frv(l1))
+        self.key = None
+        self.cache = {}
+
+    # ---- values
+    def at(self, pt):
+        """(ψ, ∇ψ, ŷ, M_ψ, [M_∇ψ_i], [M_ŷ_j]) at a point given as a list of doubles (cached)."""
+        k = tuple(C.f2h(a) for a in pt)
+        if k in self.cache:
+            return self.cache[k]
+        ex, y, Sig = self.ex, self.y, self.Sig
+        n, m = ex.n, ex.m
+        x = S.frv(pt)
+        ax = [abs(a) for a in x]
+        yh = ex.yhat(x, y, Sig)
+        psi = ex.f(x) + sum(yh[j] ** 2 / Sig[j] for j in range(m)) / 2
+        gf = ex.grad_f(x); gg = ex.grad_g_prod(x, yh)
+        grad = [gf[i] + gg[i] for i in range(n)]
+        f_abs = sum(ax[i] * sum(abs(ex.Q[i * n + j]) * ax[j] for j in range(n)) / 2 + abs(ex.c[i]) * ax[i]
+                    + abs(ex.q4[i]) * ax[i] ** 4 / 4 for i in range(n))
+        xx = sum(a * a for a in ax)
+        My = []
+        for j in range(m):
+            gabs = sum(abs(ex.A[j * n + i]) * ax[i] for i in range(n)) + abs(ex.b[j]) * xx / 2
+            bnd = max([abs(Fr(v)) for v in (ex.Dlb[j], ex.Dub[j]) if math.isfinite(v)] + [Fr(0)])
+            My.append(abs(Sig[j]) * (gabs + abs(y[j] / Sig[j]) + bnd))
+        Mpsi = f_abs + sum(My[j] ** 2 / abs(Sig[j]) for j in range(m)) / 2
+        Mg = [sum(abs(ex.Q[i * n + j] + ex.Q[j * n + i]) / 2 * ax[j] for j in range(n)) + abs(ex.c[i])
+              + abs(ex.q4[i]) * ax[i] ** 3
+              + sum((abs(ex.A[j * n + i]) + abs(ex.b[j]) * ax[i]) * My[j] for j in range(m)) for i in range(n)]
+        self.cache[k] = (psi, grad, yh, Mpsi, Mg, My)
+        return self.cache[k]
+
+    def prox(self, gamma, x, g):
+        """prox_{γh}(x − γ g), h = λ‖·‖₁ + δ_C, componentwise: clamp(soft-threshold(x − γg, γλ), lb, ub) — the
+        minimiser of a one-dimensional convex function over an interval is the projection of its unconstrained
+        minimiser.  Exact rationals in, exact rationals out."""
+        ex = self.ex
+        out = []
+        for i in range(ex.n):
+            v = x[i] - gamma * g[i]
+            t = gamma * self.lam[i]
+            s = v - t if v > t else (v + t if v < -t else Fr(0))
+            out.append(ex.proj(s, ex.Clb[i], ex.Cub[i]))
+        return out
+
+    def h(self, xh):
+        return sum(self.lam[i] * abs(xh[i]) for i in range(self.ex.n))
+
+
+def doc_criterion(name, Q, gamma, x, xh, g, gh, yh):
+    """The DOCUMENTED formula of a PANOCStopCrit (panoc-stop-crit.hpp) from x, x̂ (exact rationals of the reported
+    points), γ, ∇ψ(x), ∇ψ(x̂), ŷ(x̂) (exact).  Π_C is the prox of the problem's nonsmooth term (box, box+ℓ1).
+    → (value as float, magnitude M of the terms, divides by γ?)"""
+    n = len(x)
+    F = Fr
+    d = [x[i] - xh[i] for i in range(n)]
+
+    def ninf(v):
+        return max([abs(a) for a in v] + [F(0)])
+
+    def n2(v):
+        return math.sqrt(float(sum(a * a for a in v)))
+
+    def unit(pt, gr):
+        ph = Q.prox(F(1), pt, gr)
+        return [pt[i] - ph[i] for i in range(n)]
+    if name in ('ApproxKKT', 'ApproxKKT2'):
+        v = [d[i] / gamma + gh[i] - g[i] for i in range(n)]
+        M = max([abs(d[i] / gamma) + abs(gh[i]) + abs(g[i]) for i in range(n)] + [F(0)])
+        return (float(ninf(v)) if name == 'ApproxKKT' else n2(v)), M, True
+    if name in ('ProjGradNorm', 'ProjGradNorm2'):
+        return (float(ninf(d)) if name == 'ProjGradNorm' else n2(d)), ninf(d), False
+    if name in ('FPRNorm', 'FPRNorm2'):
+        return (float(ninf(d) / gamma) if name == 'FPRNorm' else n2(d) / float(gamma)), ninf(d) / gamma, True
+    if name in ('ProjGradUnitNorm', 'ProjGradUnitNorm2'):
+        v = unit(x, g)
+        return (float(ninf(v)) if name == 'ProjGradUnitNorm' else n2(v)), ninf(v), False
+    if name == 'LBFGSBpp':
+        v = unit(x, g)
+        nx = n2(x)
+        return float(ninf(v)) / max(1.0, nx), ninf(v), False
+    if name == 'Ipopt':
+        vk = [xh[i] - gh[i] for i in range(n)]
+        pc = Q.prox(F(1), xh, gh)                    # Π_C(v)
+        err = ninf([xh[i] - pc[i] for i in range(n)])
+        nn = 2 * (len(yh) + n)
+        if nn == 0:
+            return float(err), err, False
+        w = [vk[i] - pc[i] for i in range(n)]
+        sd = max(F(100), (sum(abs(a) for a in yh) + sum(abs(a) for a in w)) / nn) / 100
+        return float(err / sd), err, False
+    raise ValueError(name)
+
+
+def _ulp(*mags):
+    m = max([abs(float(a)) for a in mags if math.isfinite(float(a))] + [0.0])
+    return math.ulp(m) if m > 0 else 5e-324
+
+
+def consistency(flavor, op, cbs, **kw):
+    """See `_consistency`; exact quantities beyond the range of binary64 (diverging runs) are a counted skip."""
+    try:
+        return _consistency(flavor, op, cbs, **kw)
+    except OverflowError:
+        kw.get('bump', lambda k, n=1: None)('consistency_skipped_overflow_range')
+        return None
+
+
+def _consistency(flavor, op, cbs, *, bump=lambda k, n=1: None, rewritten=(), final_only_gh=False, crit=None,
+                 fixed_fista=False):
+    """Exact consistency of every callback of a PANOC / ZeroFPR / PANTR / FISTA run (layout of `solvers.parse_out`
+    field names).  `rewritten[k]`: callback k was rewritten by recompute_last_prox_step_… (its tuple mixes two
+    step sizes: reported with the finding's key).  → None | str | (str, key)"""
+    if not cbs:
+        return None
+    Q = ExactQ(op)
+    n = Q.ex.n
+    nan_inj = op.nat('nanat', 0) != 0
+    crit = op.nat('crit', 0) if crit is None else crit
+    cname = S.CRITS[crit]
+    need_gh = cname in ('ApproxKKT', 'ApproxKKT2', 'Ipopt')
+    for k, cb in enumerate(cbs):
+        last = k == len(cbs) - 1
+        x, xh, p, g = cb['x'], cb['xhat'], cb['p'], cb['grad_psi']
+        gam = cb['gamma']
+        tag = f'callback {k} ({cb["status"]})'
+        if len(x) != n or len(xh) != n or len(p) != n or len(g) != n:
+            return f'{tag}: vector sizes {len(x)}, {len(xh)}, {len(p)}, {len(g)} ≠ n = {n}'
+        if not all(math.isfinite(a) for a in x) or not (math.isfinite(gam) and gam > 0):
+            bump('consistency_skipped_nonfinite_x_or_gamma')
+            continue
+        psi, grad, _, Mpsi, Mg, _ = Q.at(x)
+        if max([Mpsi] + Mg) > Fr(10) ** 300:
+            bump('consistency_skipped_overflow_range')
+            continue
+        rw = k < len(rewritten) and rewritten[k]
+        key = 'C05-recompute-reports-stale-psi-hat' if (rw and flavor == 'panoc') else \
+            ('C05-zerofpr-recompute-reports-mixed-stepsize' if (rw and flavor == 'zerofpr') else None)
+
+        def bad(msg):
+            return (f'{tag}: {msg}', key) if key else f'{tag}: {msg}'
+        # ---- ψ(x), ∇ψ(x) ------------------------------------------------------------------------------
+        v = cb['psi']
+        if v != v and (nan_inj or fixed_fista):
+            bump('psi_nan_injected_or_not_evaluated')
+        elif not math.isfinite(v) or abs(Fr(v) - psi) > Fr(REL) * Mpsi:
+            return bad(f'reported ψ = {v!r}, ψ at the reported x is {float(psi)!r}')
+        for i in range(n):
+            if not math.isfinite(g[i]) or abs(Fr(g[i]) - grad[i]) > Fr(REL) * Mg[i]:
+                return bad(f'reported ∇ψ[{i}] = {g[i]!r}, ∇ψ at the reported x is {float(grad[i])!r}')
+        bump('psi_grad_at_x_exact')
+        # ---- x̂ = prox_γ(x − γ∇ψ(x)), p = x̂ − x --------------------------------------------------------
+        X = S.frv(x)
+        G = Fr(gam)
+        xh_ex = Q.prox(G, X, grad)
+        if not all(math.isfinite(a) for a in xh + p):
+            return bad(f'x̂ / p not finite at finite x, γ (x̂={xh}, p={p})')
+        for i in range(n):
+            tol = 4 * Fr(_ulp(x[i], float(G * grad[i]), float(G * Q.lam[i]), Q.ex.Clb[i], Q.ex.Cub[i], xh[i])) \
+                + G * Fr(REL) * Mg[i]
+            if abs(Fr(xh[i]) - xh_ex[i]) > tol:
+                return bad(f'reported x̂[{i}] = {xh[i]!r}, but prox_γ(x − γ∇ψ(x))[{i}] = {float(xh_ex[i])!r} at the '
+                           f'reported x, γ = {gam!r} (tolerance {float(tol):.3g})')
+            if abs(Fr(p[i]) - (xh_ex[i] - X[i])) > tol:
+                return bad(f'reported p[{i}] = {p[i]!r}, but prox_γ(x − γ∇ψ(x))[{i}] − x[{i}] = '
+                           f'{float(xh_ex[i] - X[i])!r} at the reported x, γ = {gam!r} (tolerance {float(tol):.3g})')
+        bump('prox_step_exact')
+        # ---- ‖p‖², φγ --------------------------------------------------------------------------------
+        P = S.frv(p)
+        pTp = sum(a * a for a in P)
+        if not math.isfinite(cb['pTp']) or abs(Fr(cb['pTp']) - pTp) > 8 * (n + 4) * Fr(EPS) * pTp:
+            return bad(f'reported ‖p‖² = {cb["pTp"]!r}, the reported p has ‖p‖² = {float(pTp)!r}')
+        v = cb['fbe']
+        if v != v and (nan_inj or fixed_fista):
+            bump('fbe_nan_injected_or_not_evaluated')
+        else:
+            hx = Q.h(S.frv(xh))
+            gp = [Fr(g[i]) * P[i] for i in range(n)]
+            want = psi + hx + pTp / (2 * G) + sum(gp)
+            M = Mpsi + hx + pTp / (2 * G) + sum(abs(a) for a in gp)
+            if not math.isfinite(v) or abs(Fr(v) - want) > (Fr(REL) + 8 * (n + 4) * Fr(EPS)) * M:
+                return bad(f'reported φγ = {v!r}, but ψ(x) + h(x̂) + ‖p‖²/(2γ) + ∇ψ(x)ᵀp = {float(want)!r} '
+                           f'(ψ exact at the reported x, the other terms from the reported x̂, p, γ)')
+            bump('fbe_exact')
+        # ---- ψ(x̂), ŷ(x̂), ∇ψ(x̂) -------------------------------------------------------------------------
+        psih, gradh, yh_ex, Mpsih, Mgh, Myh = Q.at(xh)
+        if max([Mpsih] + Mgh) > Fr(10) ** 300:
+            bump('consistency_skipped_overflow_range')
+            continue
+        v = cb['psi_hat']
+        if v != v and (nan_inj or fixed_fista):
+            bump('psihat_nan_injected_or_not_evaluated')
+        elif not math.isfinite(v) or abs(Fr(v) - psih) > Fr(REL) * Mpsih:
+            return bad(f'reported ψ(x̂) = {v!r}, ψ at the reported x̂ is {float(psih)!r}')
+        else:
+            bump('psihat_exact')
+        yh = cb.get('yhat') or []
+        if len(yh) == Q.ex.m and Q.ex.m:
+            for j in range(Q.ex.m):
+                if not math.isfinite(yh[j]) or abs(Fr(yh[j]) - yh_ex[j]) > Fr(REL) * Myh[j]:
+                    return bad(f'reported ŷ[{j}] = {yh[j]!r}, ŷ at the reported x̂ is {float(yh_ex[j])!r}')
+            bump('yhat_exact')
+        gh = cb.get('grad_psi_hat') or []
+        check_gh = cb.get('have_gh') and len(gh) == n and (not final_only_gh or (last and need_gh))
+        if check_gh:
+            for i in range(n):
+                if not math.isfinite(gh[i]) or abs(Fr(gh[i]) - gradh[i]) > Fr(REL) * Mgh[i]:
+                    return bad(f'reported ∇ψ(x̂)[{i}] = {gh[i]!r}, ∇ψ at the reported x̂ is {float(gradh[i])!r}')
+            bump('gradhat_exact')
+        # ---- ε: the documented criterion from exact quantities ----------------------------------------
+        e = cb['eps']
+        if e != e and nan_inj:
+            bump('eps_nan_injected')
+            continue
+        val, M, div = doc_criterion(cname, Q, G, X, S.frv(xh), grad, gradh, yh_ex)
+        tol = float(Fr(REL) * M) + REL * abs(val) + \
+            4 * _ulp(*(x + xh)) * (1.0 / gam if div else 1.0) * (n if cname.endswith('2') else 1)
+        tol += float(Fr(REL) * max(Mg + Mgh + [Fr(0)]))        # the gradients enter every formula but the γ-step ones
+        if not math.isfinite(e) or abs(e - val) > tol:
+            return bad(f'{cname}: reported ε = {e!r}, the documented formula from x − x̂, γ and the exact ∇ψ(x), '
+                       f'∇ψ(x̂), ŷ(x̂) gives {val!r} (tolerance {tol:.3g})')
+        bump('eps_documented_exact'); bump('eps_documented_exact_' + cname)
+    return None
